@@ -18,6 +18,7 @@
 -/
 import Wormhole.Core
 import Wormhole.Sql
+import Wormhole.PySum
 
 namespace Wormhole
 namespace PySrv
@@ -47,6 +48,7 @@ inductive SV where
   | msg (side : String) (phase body : Val) (rx : Int) (id : Val)   -- a SidedMessage
   | row (r : RowV)
   | rows (l : List RowV)
+  | usage (fields : List (String × PySum.SV))   -- a `Usage(started=…, …)` namedtuple
   deriving Repr, DecidableEq
 
 def SV.ofCell : Cell → SV
@@ -65,12 +67,14 @@ def SV.toCell : SV → Cell
   | .msg .. => .null
   | .row _ => .null
   | .rows _ => .null
+  | .usage _ => .null
 
 inductive XE where
   | none_ | true_ | false_
   | int (i : Int)
   | param (p : String)                 -- a parameter of the method
   | msgField (e : XE) (f : String)     -- sm.side / sm.phase / … of a SidedMessage
+  | attr (e : XE) (f : String)         -- u.started / u.result / … of a Usage
   | var (v : String)                   -- a local
   | selfAttr (a : String)              -- self._app_id / self._mailbox_id / self._usage_db
   | field (e : XE) (col : String)      -- e["col"]
@@ -150,6 +154,15 @@ def truthy : SV → Bool
   | .msg .. => true
   | .row r => !r.toRow.isEmpty
   | .rows l => !l.isEmpty
+  | .usage _ => true
+
+/-- a field of a `Usage` as a Python value -/
+def ofSummV : PySum.SV → SV
+  | .none => .none
+  | .int i => .int i
+  | .str s => .str s
+  | .bool b => .bool b
+  | _ => .none
 
 def rowField (r : RowV) (col : String) : SV := SV.ofCell (r.toRow.get col)
 
@@ -167,6 +180,9 @@ def eval (ctx : Ctx) (s : Sys) (env : Env) : XE → SV
     | .msg side phase body rx id =>
       if f = "side" then .str side else if f = "phase" then .val phase else if f = "body" then .val body
       else if f = "server_rx" then .int rx else if f = "msg_id" then .val id else .none
+    | _ => .none)
+  | .attr e f => (match eval ctx s env e with
+    | .usage u => (match u.lookup f with | some v => ofSummV v | Option.none => .none)
     | _ => .none)
   | .field e col => match eval ctx s env e with
     | .row r => rowField r col
@@ -293,6 +309,21 @@ def stmtSem (s : Sys) (stmt : String) (args : List SV) : ExecRes :=
     (match args with | [.str mb] => .ok (s.modDb (·.delMbSidesOf mb)) .none | _ => .raised s "TypeError")
   else if stmt = "Mailbox_close__delete_mailboxes_0" then
     (match args with | [.str mb] => .ok (s.modDb (·.delMailbox mb)) .none | _ => .raised s "TypeError")
+  -- the usage database (`_summarize_*_and_store`)
+  else if stmt = "AppNamespace__summarize_nameplate_and_store__insert_nameplates_0" then
+    (match args with
+     | [.str app, .int started, .int total, .none, .str result] =>
+       .ok (s.modUdb (fun d => { d with nameplates := d.nameplates ++ [⟨app, started, Option.none, total, result⟩] })) .none
+     | [.str app, .int started, .int total, .int w, .str result] =>
+       .ok (s.modUdb (fun d => { d with nameplates := d.nameplates ++ [⟨app, started, some w, total, result⟩] })) .none
+     | _ => .raised s "TypeError")
+  else if stmt = "AppNamespace__summarize_mailbox_and_store__insert_mailboxes_0" then
+    (match args with
+     | [.str app, .bool forNp, .int started, .int total, .none, .str result] =>
+       .ok (s.modUdb (fun d => { d with mailboxes := d.mailboxes ++ [⟨app, forNp, started, total, Option.none, result⟩] })) .none
+     | [.str app, .bool forNp, .int started, .int total, .int w, .str result] =>
+       .ok (s.modUdb (fun d => { d with mailboxes := d.mailboxes ++ [⟨app, forNp, started, total, some w, result⟩] })) .none
+     | _ => .raised s "TypeError")
   else .raised s "NotInTable"
 
 /-- what `cursor.<fetch>` of a statement's result is -/
